@@ -95,7 +95,7 @@ pub fn check_all_caps(ctx: &Ctx, order: u64, tree: &'static Node<'static, RigDev
 }
 
 fn type_family() -> Vec<&'static str> {
-    vec![":QFL?", ":QERR?", ":QLON?", "QTHR?", "qhh?", "QHDR?", ":BR?", "*CQ?", ":QLON?;:QLON?", ":QFL?;:QERR?;:QLON?\n"]
+    vec![":QLQ?", "QON?;:QLQ?;QON?", ":QNL?", ":QFL?", ":QERR?", ":QLON?", "QTHR?", "qhh?", "QHDR?", ":BR?", "*CQ?", ":QLON?;:QLON?", ":QFL?;:QERR?;:QLON?\n"]
 }
 
 pub fn run(ctx: &'static Ctx) -> i32 {
